@@ -204,6 +204,7 @@ type Options struct {
 	SamePkgConflict    bool // two files of one package using one simple name through different imports
 	Services           bool // *Service classes with long parameter lists sharing parameter names
 	Nested             bool // nested interface / static class members (beyond the conventional subset)
+	ServiceMethod      bool // @ServiceMethod on interface methods (coca reports their implementations as APIs); differential checks only
 }
 
 var (
@@ -292,7 +293,7 @@ func GenProject(t *tape.Tape, o Options) *Project {
 			}
 		}
 		if len(other) > 0 {
-			twin := classInfo{pkg: other[t.Pick(len(other))], name: c.name, methods: []string{g.pick(methodNames)}}
+			twin := classInfo{pkg: other[t.Pick(len(other))], name: c.name, methods: []string{g.pick(methodNames)}, isIface: c.isIface}
 			used[twin.pkg+"."+twin.name] = true
 			g.classes = append(g.classes, twin)
 			// a user of the name, living in one of the two packages, without an import
@@ -485,6 +486,9 @@ func (g *gctx) genFile(fi int) *JFile {
 	if ft, ok := g.forceField[fi]; ok && f.Kind == "class" {
 		f.Fields = append(f.Fields, JField{Modifiers: "private", Type: ft, Name: "twin"})
 		fieldTypes["twin"] = ft
+		if t.Bool(1, 2) {
+			f.Implements = []string{ft} // also implemented, still without an import
+		}
 	}
 	// constructors
 	if f.Kind == "class" && t.Bool(1, 3) {
@@ -646,6 +650,9 @@ func (g *gctx) genFile(fi int) *JFile {
 				f.Apis = append(f.Apis, ApiTruth{Verb: verb, Uri: base + path, Body: body, Pkg: ci.pkg, Class: ci.name, Method: mn})
 			}
 		}
+		if g.o.ServiceMethod && f.Kind == "interface" && t.Bool(1, 4) {
+			m.Annotations = append(m.Annotations, "@ServiceMethod") // coca reports implementations of such methods as APIs
+		}
 		if ifaceMapped && t.Bool(2, 3) {
 			m.Annotations = append(m.Annotations, g.pick([]string{"@GetMapping(\"/" + mn + "\")", "@PostMapping", "@RequestMapping(value = \"/" + mn + "\", method = RequestMethod.GET)"}))
 		}
@@ -678,6 +685,15 @@ func (g *gctx) genFile(fi int) *JFile {
 			m.Body = []string{g.pick(methodNames) + "();"}
 			f.Methods = append(f.Methods, m)
 		}
+	}
+	if g.o.Overloads && f.Kind == "class" && t.Bool(1, 4) {
+		// two overloads written on ONE line (valid, if unusual, layout): their order must not be left to chance
+		a, imp := g.typeRefClass(fi)
+		need(imp)
+		b2, imp2 := g.typeRefClass(fi)
+		need(imp2)
+		nm := g.pick(methodNames)
+		f.Nested = append(f.Nested, fmt.Sprintf("public void %s() { %s.%s(); } public void %s(int a) { %s.%s(); }", nm, a, g.pick(methodNames), nm, b2, g.pick(methodNames)))
 	}
 	if g.o.Nested && f.Kind == "class" && t.Bool(1, 3) {
 		nm := g.pick([]string{"Builder", "Callback", "Inner"})
